@@ -26,7 +26,7 @@ RULE = (
     "2-6 runs (SyncRunner and AsyncRunner under SimLoop, same or varied inputs) shares one backend: InMemoryCache unbounded, InMemoryCache(max_size "
     "1..3) or a harness CacheBackend with forced evictions; spurious misses injected. (disk) DiskCache on an in-memory fake of the diskcache library "
     "(thorough tier: additionally the real library): after a warm run EVERY stored entry x EVERY corruption class (bit flip, truncation, type change, "
-    "missing signature, missing payload, signature of wrong type, altered signature, another entry's authentic payload) is injected, then every "
+    "missing signature, missing payload, signature of wrong type, altered signature, another entry's authentic payload, another entry's authentic payload+signature) is injected, then every "
     "write index of a cold run x {lost write, crash before, crash after} followed by restarts on the surviving store, then key-file truncation / "
     "deletion / replacement across a restart. Non-trivial = a hit was served or an injected cache fault fired on a stored entry; distinct = digest "
     "of (program shape, cache flags, backend, history / fault point)."
@@ -37,7 +37,7 @@ ASSUMPTIONS = [
     "quick tier replaces the diskcache library by an in-memory store with the same get/set/delete contract; sqlite-level behaviour is exercised only by the thorough tier",
 ]
 
-CORRUPTIONS = ["bitflip", "truncate", "type", "drop_hmac", "drop_payload", "hmac_type", "hmac_flip", "swap_payload"]
+CORRUPTIONS = ["bitflip", "truncate", "type", "drop_hmac", "drop_payload", "hmac_type", "hmac_flip", "swap_payload", "swap_entry"]
 
 
 # ------------------------------------------------------------------ programs
@@ -77,7 +77,29 @@ def _add_shared(g: dict, rng: random.Random) -> list[str]:
                 g["nodes"].append({"kind": "ifelse", "name": nm, "fid": "sg", "params": [dict(pspec)], "when_true": tgt, "when_false": "@END", "default_open": False, "cache": True, "decide": {"op": "mod", "choices": [True, True, False]}})
                 g["order"].append(len(g["nodes"]) - 1)
             shared.append("sg")
+    if rng.random() < 0.4:
+        avail = [nd for nd in g["nodes"] if nd["kind"] == "fn" and not nd.get("blk")]
+        if avail:
+            t = rng.choice(avail)["name"]
+            for nm in ("seA", "seB"):
+                g["nodes"].append({"kind": "route", "name": nm, "fid": "se", "params": [], "targets": [t, "@END"], "default_open": True, "cache": True, "emit": [nm + "_done"], "decide": {"op": "const", "value": t}})
+                g["nodes"].append({"kind": "fn", "name": nm + "_w", "params": [], "outs": [nm + "_wo"], "wait_for": [nm + "_done"]})
+                g["order"] += [len(g["nodes"]) - 2, len(g["nodes"]) - 1]
+            shared.append("se")
     return shared
+
+
+def _variant_graph(g: dict, variant: dict | None) -> dict:
+    """Graph B of a history: the same program, but one cacheable function node additionally emits a signal a new node waits for."""
+    if not variant:
+        return g
+    g2 = copy.deepcopy(g)
+    for nd in g2["nodes"]:
+        if nd["name"] == variant["node"]:
+            nd.setdefault("emit", []).append("vsig")
+    g2["nodes"].append({"kind": "fn", "name": "vw", "params": [], "outs": ["vw_o"], "wait_for": ["vsig"]})
+    g2["order"] = list(g2["order"]) + [len(g2["nodes"]) - 1]
+    return g2
 
 
 def gen_case(rng: random.Random, tier: str) -> dict:
@@ -97,7 +119,13 @@ def gen_case(rng: random.Random, tier: str) -> dict:
                 "evict": rng.random() < 0.25,
                 "spurious": [rng.randrange(12)] if rng.random() < 0.2 else [],
             })
-        return {"kind": "mem", "graph": g, "inputs": inp, "backend": backend, "runs": runs, "shared": shared, "max_iterations": 12 if g["seeds"] else None}
+        variant = None
+        cands = [nd["name"] for nd in g["nodes"] if nd["kind"] == "fn" and nd.get("cache") and not nd.get("blk") and nd.get("fid", nd["name"]) == nd["name"] and nd["name"] + "c" not in [x["name"] for x in g["nodes"]]]
+        if cands and rng.random() < 0.35:
+            variant = {"node": rng.choice(cands)}
+            for r_ in runs:
+                r_["gv"] = rng.randrange(2)
+        return {"kind": "mem", "graph": g, "inputs": inp, "backend": backend, "runs": runs, "shared": shared, "variant": variant, "max_iterations": 12 if g["seeds"] else None}
     g = gen.gen_program(rng, max_nodes=5, depth=1, feats={"gates": rng.random() < 0.4, "loops": False, "nested": rng.random() < 0.3, "maps": False, "signals": False, "edge_defaults": False})
     n = _mark_cache(g, rng, 0.75)
     inp = gen.program_inputs(rng, g)
@@ -177,7 +205,10 @@ def _run_mem(doc: dict) -> dict:
     op_cursor = 0
     rng = random.Random(mix("evict", doc.get("_seed", 0)))
     try:
+        g_a = doc["graph"]
+        g_b = _variant_graph(g_a, doc.get("variant"))
         for ri, run in enumerate(doc["runs"]):
+            g = g_b if run.get("gv") else g_a  # two graphs sharing one cache
             values = _variant_values(base_values, run["variant"])
             # reference: the same run on a runner without cache
             rbox: dict = {}
@@ -218,7 +249,7 @@ def _run_mem(doc: dict) -> dict:
                 a, b = _started(cbox["p"][0]), _started(rbox["p"][0])
                 viol.append((f"{tag}:cached_routing_differs_from_uncached", {"only_cached": sorted(set(a) - set(b)), "only_uncached": sorted(set(b) - set(a)), "shared": doc.get("shared")}))
             # (2) model conformance + (3) re-invocation while retained, over this run's ops
-            flavour = "a" if run["runner"] == "async" else "s"  # async-def functions are different definitions
+            flavour = ("a" if run["runner"] == "async" else "s") + ("B" if run.get("gv") else "A")  # async-def functions / the variant graph's nodes are different nodes
             inv_args = {h["key"]: (h["n"], canon(h["a"]), flavour) for h in wc["rt"].history if h["k"] == "enter"}
             prev = None
             for h in wc["rt"].history:
@@ -302,6 +333,13 @@ def _corrupt(store: dict, snapshot: dict, k: str, cls: str, rng: random.Random, 
         if not others:
             return False
         store[k] = snapshot[others[0]]
+    elif cls == "swap_entry":
+        # payload AND signature of another, authentic entry placed under this key
+        others = [e for e in entries if e != k and snapshot[e] != raw]
+        if not others:
+            return False
+        store[k] = snapshot[others[0]]
+        store[k + ":hmac"] = snapshot[others[0] + ":hmac"]
     return True
 
 
@@ -589,7 +627,7 @@ def shrink_candidates(doc: dict):
                 del c["runs"][i]
                 yield c
         for i, r in enumerate(doc["runs"]):
-            simple = dict(r, runner="sync" if r["runner"] != "async" else "async", variant=0, evict=False, spurious=[])
+            simple = dict(r, runner="sync" if r["runner"] != "async" else "async", variant=0, evict=False, spurious=[], gv=0)
             if r != simple:
                 c = copy.deepcopy(doc)
                 c["runs"][i] = simple
@@ -634,7 +672,7 @@ LEVEL_TEXT = (
     "Fault enumeration inside the simulator plus seeded histories. Memory backends: histories of sync/async runs on one shared cache are compared "
     "run by run with the same run on a cache-less runner (status, values, started nodes), the recorded get/set sequence is replayed against an "
     "OrderedDict LRU model, and a function entered while its own entry is retained (and not excused by an injected miss) is a violation. Disk: for "
-    "each program every stored entry is damaged in each of 8 ways, every write of a cold run is lost or interrupted by a simulated process death "
+    "each program every stored entry is damaged in each of 9 ways, every write of a cold run is lost or interrupted by a simulated process death "
     "followed by restarts on the surviving store, and the HMAC key file is truncated/deleted/replaced; each faulty run must equal the uncached run, "
     "raise nothing, deserialise only bytes that DiskCache.set wrote for that key under the current HMAC key, and the following run must be served "
     "clean hits again."
